@@ -105,7 +105,7 @@ func runC14(c *core.Ctx) {
 				}
 				if ld, isLd := core.Unwrap(u.X).(*ssa.UnOp); isLd {
 					if fa, isFA := ld.X.(*ssa.FieldAddr); isFA {
-						if base, st := core.Up(fa.X, f.Stack); len(st) == 0 && base == ssa.Value(yr.Params[0]) {
+						if base, st := core.Up(core.FieldOwner(fa), f.Stack); len(st) == 0 && base == ssa.Value(yr.Params[0]) {
 							recv = u
 						}
 					}
@@ -141,7 +141,7 @@ func runC14(c *core.Ctx) {
 					return false
 				}
 				fa, isFA := u.X.(*ssa.FieldAddr)
-				return isFA && core.FieldKey(fa) == "CorOp."+field && isRecvOp(fa.X, st)
+				return isFA && core.FieldKey(fa) == "CorOp."+field && isRecvOp(core.FieldOwner(fa), st)
 			}
 			// reply wrapper call
 			var w *ssa.Call
@@ -178,7 +178,7 @@ func runC14(c *core.Ctx) {
 			var owner ssa.Value
 			if ld, isLd := core.Unwrap(send.Chan).(*ssa.UnOp); isLd {
 				if fa, isFA := ld.X.(*ssa.FieldAddr); isFA {
-					owner = outer(fa.X)
+					owner = outer(core.FieldOwner(fa))
 				}
 			}
 			if owner == nil || !isOpField(owner, wstack, "cor") {
@@ -315,7 +315,7 @@ func runC14(c *core.Ctx) {
 			if send != nil {
 				if ld, isLd := core.Unwrap(send.Chan).(*ssa.UnOp); isLd {
 					if fa, isFA := ld.X.(*ssa.FieldAddr); isFA {
-						chOwner = outer(fa.X)
+						chOwner = outer(core.FieldOwner(fa))
 					}
 				}
 			}
@@ -400,7 +400,7 @@ func runC14(c *core.Ctx) {
 					return
 				}
 				n++
-				c.Check(fresh(fa.X, 0), "R3", fmt.Sprintf("%s/store:%s", core.FuncName(f), key), p.InstrPos(ins), "set on the object under construction", key+" is assigned outside the construction of the coroutine: once the coroutine is shared, the requester (receive, under the lock) and the owner (YieldRef/YieldFrom, without it) read this field concurrently - a channel created or replaced later means a request or reply is sent on a channel nobody receives from (YieldFrom hangs) and races with close()")
+				c.Check(fresh(core.FieldOwner(fa), 0), "R3", fmt.Sprintf("%s/store:%s", core.FuncName(f), key), p.InstrPos(ins), "set on the object under construction", key+" is assigned outside the construction of the coroutine: once the coroutine is shared, the requester (receive, under the lock) and the owner (YieldRef/YieldFrom, without it) read this field concurrently - a channel created or replaced later means a request or reply is sent on a channel nobody receives from (YieldFrom hangs) and races with close()")
 			})
 		}
 		if n == 0 {
